@@ -15,7 +15,8 @@ From MZ.spec Require DeflateSpec.
 From MZ.model Require Import InflateCore.
 From Coq Require Import ZArith Bool.
 From MZ.spec Require Adler Zlib.
-From MZ.proofs Require Import DeflateFlags StoredSpec InflateStored InflateStoredZ InflateStoredChunks InflateStoredTotal.
+From MZ.model Require Import InflateStream.
+From MZ.proofs Require Import DeflateFlags StoredSpec InflateStored InflateStoredZ InflateStoredChunks InflateStoredTotal InflateStoredApi.
 Import ListNotations.
 Local Open Scope N_scope.
 
@@ -84,3 +85,46 @@ Proof.
     destruct H4 as [H4|[[_ H4]|(H4 & H5 & H6)]]; [left; exact H4|contradiction|right].
     split; [exact H4|]. split; [exact H5|]. rewrite H6. unfold stream. cbn [app]. rewrite app_nil_r. reflexivity.
 Qed.
+
+(* ... and through two more of the entry points the property names, for every stream of stored blocks followed
+   by arbitrary bytes: the one-shot vector function (decompress_to_vec_inner) returns exactly the payload, and so
+   does the slice-iterator helper for ANY non-empty list of input slices, given one spare output byte *)
+Theorem C03_stored_streams_through_vector_and_slice_entry_points_partial :
+  (forall flags0 cmf flg chunks last extra,
+   has (N.lor flags0 F_NONWRAP) F_ZLIB = true -> has (N.lor flags0 F_NONWRAP) F_STOPBB = false ->
+   cmf < 256 -> flg < 256 -> Zlib.valid_header (Z.of_N cmf) (Z.of_N flg) = true ->
+   chunks_ok chunks -> bytes_ok last -> N.of_nat (length last) <= 65535 ->
+   let data := concat chunks ++ last in
+   let input := (cmf :: flg :: stored_stream chunks last ++ be32 (Adler.adler32 1 data)) ++ extra in
+   N.of_nat (length input) < 2 ^ 57 ->
+   decompress_to_vec_inner input flags0 USIZE_MAX = Ret (VOk data)) /\
+  (forall flags0 chunks last extra,
+   has (N.lor flags0 F_NONWRAP) F_ZLIB = false -> has (N.lor flags0 F_NONWRAP) F_STOPBB = false ->
+   chunks_ok chunks -> bytes_ok last -> N.of_nat (length last) <= 65535 ->
+   let data := concat chunks ++ last in
+   let input := stored_stream chunks last ++ extra in
+   N.of_nat (length input) < 2 ^ 57 ->
+   decompress_to_vec_inner input flags0 USIZE_MAX = Ret (VOk data)) /\
+  (forall (zlib ignore : bool) cmf flg chunks last extra slices out_len,
+   cmf < 256 -> flg < 256 -> Zlib.valid_header (Z.of_N cmf) (Z.of_N flg) = true ->
+   chunks_ok chunks -> bytes_ok last -> N.of_nat (length last) <= 65535 ->
+   let data := concat chunks ++ last in
+   let stream := (if zlib then [cmf; flg] else []) ++ stored_stream chunks last ++
+                 (if zlib then be32 (Adler.adler32 1 data) else []) in
+   slices <> [] -> concat slices = stream ++ extra ->
+   N.of_nat (length data) < out_len -> out_len <= USIZE_MAX -> N.of_nat (length (concat slices)) < 2 ^ 57 ->
+   exists o', decompress_slice_iter_to_slice out_len slices zlib ignore = Ret (Done, N.of_nat (length data), o') /\
+              aget_list o' 0 (N.of_nat (length data)) = data).
+Proof.
+  split; [exact to_vec_zlib_stored_stream|]. split; [exact to_vec_raw_stored_stream|exact slice_iter_stored_stream].
+Qed.
+
+(* non-vacuity: three slices (one empty), zlib, destination of 6 bytes for 5 bytes of payload *)
+Example C03_slices_decode :
+  let data := [97; 98; 99; 100; 101] in
+  let stream := 120 :: 1 :: stored_stream [[97; 98; 99]] [100; 101] ++ be32 (Adler.adler32 1 data) in
+  match decompress_slice_iter_to_slice 6 [firstn 9 stream; []; skipn 9 stream ++ [7]] true false with
+  | Ret (s, n, o') => s = Done /\ n = 5 /\ aget_list o' 0 5 = data
+  | _ => False
+  end.
+Proof. vm_compute. repeat split; reflexivity. Qed.
